@@ -885,6 +885,11 @@ def check_cc_item(i, op, f, ob, before, specs, bad, clauses, del_processed, fin_
             sp = specs.get(name)
             if sp:
                 for n, nd in ob["api_nodes"].items():
+                    if nd["deleting"]:
+                        # the pod CIDRs of a node under deletion are released as soon as the deletion is seen (and are not
+                        # recorded again by a restart): such a node no longer depends on the ClusterCIDR
+                        if not any(n in e.get("assoc", []) for e in before["snap"] if e.get("name") == name):
+                            continue
                     for t in nd["cidrs"]:
                         if t.startswith("?"):
                             continue
